@@ -166,3 +166,39 @@ Example cache_ex :
   build after S (fun _ => 1) et (fun _ => true) 10 pl 0 0 = Some [{| isit := 4; idist := 1 |}; {| isit := 1; idist := 1 |}] /\
   build after S (fun _ => 1) et (fun _ => true) 10 pl 1 0 = Some [{| isit := 2; idist := 2 |}; {| isit := 1; idist := 2 |}].
 Proof. vm_compute. split; reflexivity. Qed.
+
+(* ---------- why the list below the place of caching is unchanged ----------
+   The parsing list changes in two ways: a set is appended (pl[++pl_curr] = new_set), or an error recovery replaces it by
+   another list.  Every recovery is counted, an entry of the cache remembers the count at the time it was saved and is
+   used only while the count is the same (fact cache_entries_carry_recovery_number of the source).  Then the list at
+   the time of use extends the list at the time of saving: the second premise of [cache_sound]. *)
+Section Epoch.
+Variable A : Type.
+Inductive plop := Push (s : A) | Recover (newpl : list A).
+Definition plstep (st : list A * nat) (o : plop) : list A * nat :=
+  match o with Push s => (fst st ++ [s], snd st) | Recover l' => (l', S (snd st)) end.
+
+Lemma epoch_mono ops : forall st, snd st <= snd (fold_left plstep ops st).
+Proof.
+  induction ops as [|o ops IH]; intros st; simpl; [lia|].
+  specialize (IH (plstep st o)). destruct o; simpl in *; lia.
+Qed.
+
+Theorem same_epoch_extends ops : forall st, snd (fold_left plstep ops st) = snd st ->
+  exists ext, fst (fold_left plstep ops st) = fst st ++ ext.
+Proof.
+  induction ops as [|o ops IH]; intros st H; simpl in *.
+  - exists []. now rewrite app_nil_r.
+  - destruct o as [s|l'].
+    + destruct (IH (fst st ++ [s], snd st) H) as (ext & E). exists (s :: ext).
+      change (plstep st (Push s)) with (fst st ++ [s], snd st). rewrite E. simpl. now rewrite <- app_assoc.
+    + change (plstep st (Recover l')) with (l', S (snd st)) in H.
+      pose proof (epoch_mono ops (l', S (snd st))) as M. cbn [snd] in M. lia.
+Qed.
+
+Corollary same_epoch_unchanged_below ops st d j : snd (fold_left plstep ops st) = snd st -> j < length (fst st) ->
+  nth j (fst (fold_left plstep ops st)) d = nth j (fst st) d.
+Proof.
+  intros H Hj. destruct (same_epoch_extends ops st H) as (ext & ->). now rewrite app_nth1.
+Qed.
+End Epoch.
